@@ -17,7 +17,7 @@ from . import c13
 from .common import parallel_map
 
 RULE = ("cases = (declared graph as in C13 with extra tags, target product, recursive, check, force); every product "
-        "of a graph is a target, flag combinations are sampled so that each graph contributes about 20 removals; plus an "
+        "of a graph is a target, flag combinations are sampled so that each graph contributes about 18 removals; plus an "
         "exhaustive family (4 products, every subset of 2 candidate lines per table: 256 graphs x every target x flags; "
         "all in the thorough tier, 6 graphs otherwise); a "
         "case is non-trivial when the target has a dependency or a user; distinct = distinct (graph, case) digests")
@@ -44,7 +44,7 @@ def gen_graph(rng, wide=False):
     return g
 
 
-def gen_cases(rng, g, per_graph=20):
+def gen_cases(rng, g, per_graph=18):
     allc = [[p["name"], p["version"], r, c, f] for p in g["products"] for r in (False, True) for c in (False, True) for f in (False, True)]
     rng.shuffle(allc)
     return sorted(allc[:per_graph])
@@ -193,7 +193,7 @@ def model_request(graph, cases):
     return {"m": "c14", "graph": {"products": graph["products"]}, "default": None, "cases": cases}
 
 
-def evaluate(ctx, graphs, per_graph=20, all_cases=False):
+def evaluate(ctx, graphs, per_graph=18, all_cases=False):
     L.preimport()
     jobs = []
     for g in graphs:
@@ -275,7 +275,7 @@ def run(ctx):
         if ctx.out_of_time():
             break
         evaluate(ctx, [c13.enum_graph(i, 2) for i in ids[at:at + 32]], all_cases=True)
-    n = ctx.n(60, 5000)
+    n = ctx.n(45, 5000)
     done = 0
     while done < n and not ctx.out_of_time():
         k = min(40, n - done)
@@ -284,7 +284,7 @@ def run(ctx):
     if ctx.evaluations and ctx.distinct_nontrivial < ctx.evaluations * 0.3:
         raise common.InfraError("degenerate distribution: %d non-trivial of %d" % (ctx.distinct_nontrivial, ctx.evaluations))
     h = ctx.histogram
-    if not ctx.escalated and n >= 60:
+    if not ctx.escalated and n >= 40:
         for need in ("target:has_user", "target:has_dependency", "target:shares_dependency"):
             if not h.get(need):
                 raise common.InfraError("degenerate distribution: no case with %s" % need)
